@@ -114,7 +114,7 @@ theorem filter_insert_rejected {m : AList Str Str} (q : Str → Bool) {k : Str} 
   | cons x r ih =>
     obtain ⟨k', v'⟩ := x
     by_cases hk : k' = k
-    · subst hk; simp [AList.insert, List.filter_cons, hq]
+    · subst hk; simp [AList.insert, hq]
     · simp [AList.insert, hk, List.filter_cons, ih]
 
 theorem mem_insert {m : AList Str Str} {k v : Str} {x : Str × Str}
@@ -250,7 +250,7 @@ theorem phase1_snd (old : List Str) (md : AList Str KeyValue) (acc : AList Str S
       have hadd : addProcessEnv acc n v = acc ++ [(n, v)] := by
         unfold addProcessEnv; simp only [hn, if_false]; exact insert_of_absent v hacc
       rw [hadd, ih md (acc ++ [(n, v)]) hwf.tail ?_ hmod]
-      · simp [List.filterMap_cons, keep, hs, hl]
+      · simp [keep, hs, hl]
       · intro e' he'
         simp only [List.map_append, List.map_cons, List.map_nil, List.mem_append, List.mem_singleton, not_or]
         exact ⟨hdisj e' (List.mem_cons_of_mem _ he'), hrn e' he'⟩
@@ -268,7 +268,7 @@ theorem phase1_snd (old : List Str) (md : AList Str KeyValue) (acc : AList Str S
       | true =>
         simp only [if_true]
         rw [ih (AList.erase md n) acc hwf.tail (fun e' he' => hdisj e' (List.mem_cons_of_mem _ he')) hmod', hcongr]
-        simp [List.filterMap_cons, keep, hs, hl, hmk]
+        simp [keep, hs, hl, hmk]
       | false =>
         simp only [Bool.false_eq_true, if_false]
         have hkey : m.key = n := by
@@ -277,7 +277,7 @@ theorem phase1_snd (old : List Str) (md : AList Str KeyValue) (acc : AList Str S
           unfold addProcessEnv; rw [hkey]; simp only [hn, if_false]; exact insert_of_absent _ hacc
         have hmk' : isMarked n = false := hkey ▸ hmk
         rw [hadd, ih (AList.erase md n) (acc ++ [(n, m.value)]) hwf.tail ?_ hmod', hcongr]
-        · simp [List.filterMap_cons, keep, hs, hl, hkey, hmk']
+        · simp [keep, hs, hl, hkey, hmk']
         · intro e' he'
           simp only [List.map_append, List.map_cons, List.map_nil, List.mem_append, List.mem_singleton, not_or]
           exact ⟨hdisj e' (List.mem_cons_of_mem _ he'), hrn e' he'⟩
@@ -332,15 +332,15 @@ theorem lookup_filterMap_keep (old : List Str) (md : AList Str KeyValue) (hwf : 
       simp only [true_or, if_true]
       cases hl : AList.lookup md k with
       | none =>
-        simp [List.filterMap_cons, keep, hs, hl, AList.lookup]
+        simp [keep, hs, hl, AList.lookup]
       | some m =>
         cases hmk : isMarked m.key with
-        | true => simp [List.filterMap_cons, keep, hs, hl, hmk, hrest]
+        | true => simp [keep, hs, hl, hmk, hrest]
         | false =>
           have hkey : m.key = k := by
             have := hmod k m hl; rwa [strip_of_not_marked hmk] at this
           have hmk' : isMarked k = false := hkey ▸ hmk
-          simp [List.filterMap_cons, keep, hs, hl, AList.lookup, hkey, hmk']
+          simp [keep, hs, hl, AList.lookup, hkey, hmk']
     · have hnk : n ≠ k := fun h => hk h.symm
       simp only [hk, false_or, hnk, if_false]
       have : AList.lookup (List.filterMap (keep md) (e :: r)) k = AList.lookup (r.filterMap (keep md)) k := by
